@@ -501,8 +501,10 @@ def c07_family(tier, rnd):
     ddom = [DICT([]), DICT([("class", S("b"))]), DICT([("id", S("c")), ("checked", B(True))]),
             DICT([("class", NONE), ("title", S("h")), ("checked", I(0))])]
     kinds = named + ["{}"]
-    lists = [(a,) for a in kinds] + [(a, b) for a in kinds for b in kinds if a != b or a == "{}"]
-    l3 = [(a, b, c) for a in kinds for b in kinds for c in kinds if len({x for x in (a, b, c) if x != "{}"}) == len([x for x in (a, b, c) if x != "{}"])]
+    # at most one dictionary per statement: a second one is rejected by the compiler
+    # ("Duplicate attribute name"), which the property does not claim to be valid
+    lists = [(a,) for a in kinds] + [(a, b) for a in kinds for b in kinds if a != b]
+    l3 = [(a, b, c) for a in kinds for b in kinds for c in kinds if len({a, b, c}) == 3]
     if quick:
         lists = lists[:6] + rnd.sample(lists[6:], 18)
         l3 = rnd.sample(l3, 10)
